@@ -41,7 +41,8 @@ def in_class(c, k):
 
 
 def load_pool(tier):
-    """tier 'quick' -> core skeletons; 'thorough' -> all."""
+    """'mini' -> mini; 'quick'/'core' -> mini+core; 'thorough'/'full' -> all."""
+    want = {"mini": ("mini",), "quick": ("mini", "core"), "core": ("mini", "core")}.get(tier, ("mini", "core", "full"))
     out = []
     with open(os.path.join(VERIF, "skeletons.txt"), encoding="utf-8") as f:
         for line in f:
@@ -49,7 +50,7 @@ def load_pool(tier):
             if not line or line.startswith("#"):
                 continue
             tag, text = line.split("\t", 1)
-            if tag == "core" or tier == "thorough":
+            if tag in want:
                 out.append(text.encode("ascii").decode("unicode_escape"))
     return out
 
@@ -95,3 +96,19 @@ def g2_pairs(pairs):
         for k in range(NCLASS):
             shards.append({"skeleton": sk[:p] + "??" + sk[p + 2 :], "holes": [p, p + 1], "base": sk, "mode": "replace2", "classes": [k]})
     return shards
+
+
+# DESIGN 2.7: finite alphabet used for cells that reach a hashing site
+FINITE_RANGES = [(1, 10), (32, 126)]
+FINITE_SINGLES = [0xA0, 0xE9, 0x663, 0x2003, 0x3000, 0xFE, 0x8268, 0x8269, 0x130, 0x1F600]
+FINITE_TEXT = "U+0001-U+000A, U+0020-U+007E, U+00A0, U+00E9, U+00FE, U+0130, U+0663, U+2003, U+3000, U+8268, U+8269, U+1F600"
+
+
+def in_finite(c):
+    for lo, hi in FINITE_RANGES:
+        if lo <= c <= hi:
+            return True
+    for x in FINITE_SINGLES:
+        if c == x:
+            return True
+    return False
